@@ -192,7 +192,9 @@ func (u *Universe) Of(rt reflect.Type) *Desc {
 	case rt.AssignableTo(bigIntT):
 		return &Desc{K: 'g', RT: rt}
 	case kind == reflect.Float32 || kind == reflect.Float64:
-		return u.unsup("float " + rt.String())
+		// writeFloat/decodeFloat: the IEEE-754 bit pattern of the value as float64, written as an unsigned integer.
+		// The model sees a uint 64 (descriptor u64); Build/Dump convert through math.Float64bits.
+		return &Desc{K: 'F', N: rt.Bits(), RT: rt}
 	case kind >= reflect.Uint && kind <= reflect.Uintptr:
 		return &Desc{K: 'u', N: rt.Bits(), RT: rt}
 	case kind >= reflect.Int && kind <= reflect.Int64:
@@ -239,6 +241,10 @@ func (d *Desc) String() string {
 }
 
 func (d *Desc) write(sb *strings.Builder) {
+	if d.K == 'F' {
+		sb.WriteString("u64")
+		return
+	}
 	sb.WriteByte(d.K)
 	switch d.K {
 	case 'u', 'i', 'A', '@':
